@@ -1,6 +1,6 @@
 """Driver of Engine C: load the real C files, generate the obligations of the functions under
 contract (in worker processes), discharge them, run the vacuity guards."""
-import time, importlib, concurrent.futures as cf, traceback
+import time, threading, importlib, concurrent.futures as cf, traceback
 import z3
 from . import cast, engc, solve, contract
 
@@ -58,7 +58,12 @@ def _gen(task):
                                 if not solve.has_quantifier(h):
                                     fast.add(h)
                             fast.add(z3.Not(p2))
-                            rf = fast.check()
+                            # z3 does not always honour its own timeout (nonlinear preprocessing): a watchdog interrupts the context
+                            wd = threading.Timer(4.0, fast.ctx.interrupt); wd.daemon = True; wd.start()
+                            try:
+                                rf = fast.check()
+                            finally:
+                                wd.cancel()
                         except z3.Z3Exception:
                             rf = z3.unknown
                         fast.pop()
